@@ -228,6 +228,7 @@ static void fill_buf(rng_t* r, const bufspec_t* b, void* p, size_t bytes) {
   }
 }
 
+__thread int op_exec_repeat;
 void op_exec(const opdef_t* o, const env_t* env, uint64_t seed, int prefill, unsigned mis, unsigned monitors, opres_t* res) {
   memset(res, 0, sizeof *res);
   rng_t r;
@@ -312,6 +313,22 @@ void op_exec(const opdef_t* o, const env_t* env, uint64_t seed, int prefill, uns
       }
     }
   }
+  // op_exec_repeat > 0: the call is repeated that many times on the same buffers (inputs the call overwrites are restored
+  // from a copy before each repetition); every repetition must return the bits of the first call
+  const int rep_n = op_exec_repeat;
+  uint8_t* rep_save[OP_MAXB] = {0};
+  if (rep_n > 0)
+    for (int i = 0; i < pl.nb; i++) {
+      bufspec_t* b = &pl.b[i];
+      if (b->role != R_INOUT && b->role != R_INTMP) continue;
+      if (b->is_zvec) {
+        rep_save[i] = malloc(b->size * b->n * 8 + 1);
+        for (uint64_t l = 0; l < b->size; l++) memcpy(rep_save[i] + l * b->n * 8, zvec_limb(&z[i], l), b->n * 8);
+      } else {
+        rep_save[i] = malloc(b->bytes + 1);
+        memcpy(rep_save[i], p[i], b->bytes);
+      }
+    }
   const unsigned csr0 = _mm_getcsr();
   unsigned short cw0, cw1;
   __asm__ volatile("fnstcw %0" : "=m"(cw0));
@@ -366,6 +383,34 @@ void op_exec(const opdef_t* o, const env_t* env, uint64_t seed, int prefill, uns
     }
   }
   res->out_hash = h;
+  if (rep_n > 0) {
+    for (int k = 0; k < rep_n; k++) {
+      for (int i = 0; i < pl.nb; i++) {
+        bufspec_t* b = &pl.b[i];
+        if (!rep_save[i]) continue;
+        if (b->is_zvec)
+          for (uint64_t l = 0; l < b->size; l++) memcpy(zvec_limb(&z[i], l), rep_save[i] + l * b->n * 8, b->n * 8);
+        else
+          memcpy(p[i], rep_save[i], b->bytes);
+      }
+      o->call(&pl, p, env);
+      uint64_t h2 = 0x1234;
+      for (int i = 0; i < pl.nb; i++) {
+        bufspec_t* b = &pl.b[i];
+        if (b->role != R_OUT && b->role != R_INOUT) continue;
+        if (b->is_zvec)
+          for (uint64_t l = 0; l < b->size; l++) h2 = hash_bytes(zvec_limb(&z[i], l), b->n * 8, h2);
+        else
+          h2 = hash_bytes(p[i], b->bytes, h2);
+      }
+      if (h2 != h) {
+        res->rerun_differs = 1;
+        if (!res->msg[0]) snprintf(res->msg, sizeof res->msg, "call number %d of %d consecutive calls with identical arguments (same buffers, inputs restored) gave other output bits than the first", k + 2, rep_n + 1);
+        break;
+      }
+    }
+    for (int i = 0; i < pl.nb; i++) free(rep_save[i]);
+  }
   if (monitors & MON_RERUN) {
     int pure = 1;
     for (int i = 0; i < pl.nb; i++)
@@ -546,6 +591,31 @@ static void call_ip_cplx_mul_ab(const opplan_t* pl, void* const p[], const env_t
 static void call_ip_r4_mul_a(const opplan_t* pl, void* const p[], const env_t* e) { (void)pl; reim4_fftvec_mul(e->r4_mul, p[0], p[0], p[1]); }
 static void call_ip_r4_mul_b(const opplan_t* pl, void* const p[], const env_t* e) { (void)pl; reim4_fftvec_mul(e->r4_mul, p[0], p[1], p[0]); }
 static void call_ip_r4_mul_ab(const opplan_t* pl, void* const p[], const env_t* e) { (void)pl; reim4_fftvec_mul(e->r4_mul, p[0], p[0], p[0]); }
+// both (read-only) inputs are the same vector, the output is another one: r = a*a, r += a*a
+static void plan_sq_out(opplan_t* pl, rng_t* r, const env_t* e) { (void)r; B_RAW(pl, R_OUT, F_NONE, 0, 2 * e->m * 8, 8); B_RAW(pl, R_IN, F_DBL, 4, 2 * e->m * 8, 8); }
+static void plan_sq_acc(opplan_t* pl, rng_t* r, const env_t* e) { (void)r; B_RAW(pl, R_INOUT, F_DBL, 4, 2 * e->m * 8, 8); B_RAW(pl, R_IN, F_DBL, 4, 2 * e->m * 8, 8); }
+static void plan_sq_out4(opplan_t* pl, rng_t* r, const env_t* e) { if (e->m < 4) { pl->skip = 1; return; } plan_sq_out(pl, r, e); }
+static void plan_sq_acc4(opplan_t* pl, rng_t* r, const env_t* e) { if (e->m < 4) { pl->skip = 1; return; } plan_sq_acc(pl, r, e); }
+static void plan_sq_acc8(opplan_t* pl, rng_t* r, const env_t* e) { if (e->m < 8) { pl->skip = 1; return; } plan_sq_acc(pl, r, e); }
+static void plan_sq_out8(opplan_t* pl, rng_t* r, const env_t* e) { if (e->m < 8) { pl->skip = 1; return; } plan_sq_out(pl, r, e); }
+static void call_sq_reim_mul(const opplan_t* pl, void* const p[], const env_t* e) { (void)pl; reim_fftvec_mul(e->reim_mul, p[0], p[1], p[1]); }
+static void call_sq_reim_addmul(const opplan_t* pl, void* const p[], const env_t* e) { (void)pl; reim_fftvec_addmul(e->reim_addmul, p[0], p[1], p[1]); }
+static void call_sq_cplx_mul(const opplan_t* pl, void* const p[], const env_t* e) { (void)pl; cplx_fftvec_mul(e->cplx_mul, p[0], p[1], p[1]); }
+static void call_sq_cplx_addmul(const opplan_t* pl, void* const p[], const env_t* e) { (void)pl; cplx_fftvec_addmul(e->cplx_addmul, p[0], p[1], p[1]); }
+static void call_sq_r4_mul(const opplan_t* pl, void* const p[], const env_t* e) { (void)pl; reim4_fftvec_mul(e->r4_mul, p[0], p[1], p[1]); }
+static void call_sq_r4_addmul(const opplan_t* pl, void* const p[], const env_t* e) { (void)pl; reim4_fftvec_addmul(e->r4_addmul, p[0], p[1], p[1]); }
+static void call_sq_reim_mul_ref(const opplan_t* pl, void* const p[], const env_t* e) { (void)pl; reim_fftvec_mul_ref(e->reim_mul, p[0], p[1], p[1]); }
+static void call_sq_reim_mul_fma(const opplan_t* pl, void* const p[], const env_t* e) { (void)pl; reim_fftvec_mul_fma(e->reim_mul, p[0], p[1], p[1]); }
+static void call_sq_reim_addmul_ref(const opplan_t* pl, void* const p[], const env_t* e) { (void)pl; reim_fftvec_addmul_ref(e->reim_addmul, p[0], p[1], p[1]); }
+static void call_sq_reim_addmul_fma(const opplan_t* pl, void* const p[], const env_t* e) { (void)pl; reim_fftvec_addmul_fma(e->reim_addmul, p[0], p[1], p[1]); }
+static void call_sq_cplx_mul_ref(const opplan_t* pl, void* const p[], const env_t* e) { (void)pl; cplx_fftvec_mul_ref(e->cplx_mul, p[0], p[1], p[1]); }
+static void call_sq_cplx_mul_fma(const opplan_t* pl, void* const p[], const env_t* e) { (void)pl; cplx_fftvec_mul_fma(e->cplx_mul, p[0], p[1], p[1]); }
+static void call_sq_cplx_addmul_ref(const opplan_t* pl, void* const p[], const env_t* e) { (void)pl; cplx_fftvec_addmul_ref(e->cplx_addmul, p[0], p[1], p[1]); }
+static void call_sq_cplx_addmul_fma(const opplan_t* pl, void* const p[], const env_t* e) { (void)pl; cplx_fftvec_addmul_fma(e->cplx_addmul, p[0], p[1], p[1]); }
+static void call_sq_r4_mul_ref(const opplan_t* pl, void* const p[], const env_t* e) { (void)pl; reim4_fftvec_mul_ref(e->r4_mul, p[0], p[1], p[1]); }
+static void call_sq_r4_mul_fma(const opplan_t* pl, void* const p[], const env_t* e) { (void)pl; reim4_fftvec_mul_fma(e->r4_mul, p[0], p[1], p[1]); }
+static void call_sq_r4_addmul_ref(const opplan_t* pl, void* const p[], const env_t* e) { (void)pl; reim4_fftvec_addmul_ref(e->r4_addmul, p[0], p[1], p[1]); }
+static void call_sq_r4_addmul_fma(const opplan_t* pl, void* const p[], const env_t* e) { (void)pl; reim4_fftvec_addmul_fma(e->r4_addmul, p[0], p[1], p[1]); }
 
 // --- dft / idft (both module types)
 static uint64_t dft_bytes(const env_t* e, int ntt, uint64_t size) { return ntt ? e->N * 32 * size : bytes_of_vec_znx_dft(e->fft64, size); }
@@ -1165,6 +1235,9 @@ const opdef_t OPS[] = {
     {"cplx_fftvec_mul(r==a)", OPF_TABLE, plan_inplace_mul, call_ip_cplx_mul_a}, {"cplx_fftvec_mul(r==a==b)", OPF_TABLE, plan_square, call_ip_cplx_mul_ab},
     {"reim4_fftvec_mul(r==a)", OPF_TABLE, plan_inplace_mul4, call_ip_r4_mul_a}, {"reim4_fftvec_mul(r==b)", OPF_TABLE, plan_inplace_mul4, call_ip_r4_mul_b},
     {"reim4_fftvec_mul(r==a==b)", OPF_TABLE, plan_square4, call_ip_r4_mul_ab},
+    {"reim_fftvec_mul(a==b)", OPF_TABLE, plan_sq_out, call_sq_reim_mul}, {"reim_fftvec_addmul(a==b)", OPF_TABLE, plan_sq_acc, call_sq_reim_addmul},
+    {"cplx_fftvec_mul(a==b)", OPF_TABLE, plan_sq_out, call_sq_cplx_mul}, {"cplx_fftvec_addmul(a==b)", OPF_TABLE, plan_sq_acc, call_sq_cplx_addmul},
+    {"reim4_fftvec_mul(a==b)", OPF_TABLE, plan_sq_out4, call_sq_r4_mul}, {"reim4_fftvec_addmul(a==b)", OPF_TABLE, plan_sq_acc4, call_sq_r4_addmul},
     {"vec_znx_dft", OPF_FFT64, plan_dft, call_dft}, {"vec_znx_dft@ntt120", OPF_NTT120, plan_dft_ntt, call_dft},
     {"vec_znx_idft", OPF_FFT64, plan_idft, call_idft}, {"vec_znx_idft@ntt120", OPF_NTT120, plan_idft_ntt, call_idft},
     {"vec_znx_idft_tmp_a", OPF_FFT64, plan_idft_tmp_a, call_idft_tmp_a}, {"vec_znx_idft_tmp_a@ntt120", OPF_NTT120, plan_idft_tmp_a_ntt, call_idft_tmp_a},
@@ -1232,6 +1305,12 @@ const opdef_t OPS[] = {
     {"cplx_fftvec_addmul_avx512", OPF_KERNEL | OPF_AVX, plan_addmul_d8_512, call_k_cplx_addmul_512, "cplx_fftvec_addmul_ref"},
     {"reim4_fftvec_mul_ref", OPF_KERNEL, plan_mul_r4, call_k_r4_mul_ref}, {"reim4_fftvec_mul_fma", OPF_KERNEL | OPF_AVX, plan_mul_r4, call_k_r4_mul_fma, "reim4_fftvec_mul_ref"},
     {"reim4_fftvec_addmul_ref", OPF_KERNEL, plan_addmul_r4, call_k_r4_addmul_ref}, {"reim4_fftvec_addmul_fma", OPF_KERNEL | OPF_AVX, plan_addmul_r4, call_k_r4_addmul_fma, "reim4_fftvec_addmul_ref"},
+    {"reim_fftvec_mul_ref(a==b)", OPF_KERNEL, plan_sq_out4, call_sq_reim_mul_ref}, {"reim_fftvec_mul_fma(a==b)", OPF_KERNEL | OPF_AVX, plan_sq_out4, call_sq_reim_mul_fma, "reim_fftvec_mul_ref(a==b)"},
+    {"reim_fftvec_addmul_ref(a==b)", OPF_KERNEL, plan_sq_acc4, call_sq_reim_addmul_ref}, {"reim_fftvec_addmul_fma(a==b)", OPF_KERNEL | OPF_AVX, plan_sq_acc4, call_sq_reim_addmul_fma, "reim_fftvec_addmul_ref(a==b)"},
+    {"cplx_fftvec_mul_ref(a==b)", OPF_KERNEL, plan_sq_out8, call_sq_cplx_mul_ref}, {"cplx_fftvec_mul_fma(a==b)", OPF_KERNEL | OPF_AVX, plan_sq_out8, call_sq_cplx_mul_fma, "cplx_fftvec_mul_ref(a==b)"},
+    {"cplx_fftvec_addmul_ref(a==b)", OPF_KERNEL, plan_sq_acc8, call_sq_cplx_addmul_ref}, {"cplx_fftvec_addmul_fma(a==b)", OPF_KERNEL | OPF_AVX, plan_sq_acc8, call_sq_cplx_addmul_fma, "cplx_fftvec_addmul_ref(a==b)"},
+    {"reim4_fftvec_mul_ref(a==b)", OPF_KERNEL, plan_sq_out4, call_sq_r4_mul_ref}, {"reim4_fftvec_mul_fma(a==b)", OPF_KERNEL | OPF_AVX, plan_sq_out4, call_sq_r4_mul_fma, "reim4_fftvec_mul_ref(a==b)"},
+    {"reim4_fftvec_addmul_ref(a==b)", OPF_KERNEL, plan_sq_acc4, call_sq_r4_addmul_ref}, {"reim4_fftvec_addmul_fma(a==b)", OPF_KERNEL | OPF_AVX, plan_sq_acc4, call_sq_r4_addmul_fma, "reim4_fftvec_addmul_ref(a==b)"},
     {"reim4_from_cplx_ref", OPF_KERNEL, plan_conv_r4, call_k_r4_from_ref}, {"reim4_from_cplx_fma", OPF_KERNEL | OPF_AVX, plan_conv_r4, call_k_r4_from_fma, "reim4_from_cplx_ref"},
     {"reim4_to_cplx_ref", OPF_KERNEL, plan_conv_r4, call_k_r4_to_ref}, {"reim4_to_cplx_fma", OPF_KERNEL | OPF_AVX, plan_conv_r4, call_k_r4_to_fma, "reim4_to_cplx_ref"},
     {"reim_from_znx64_ref", OPF_KERNEL, plan_from_znx64_2, call_k_from_znx64_ref}, {"reim_from_znx64_bnd50_fma", OPF_KERNEL | OPF_AVX, plan_from_znx64_2, call_k_from_znx64_fma, "reim_from_znx64_ref"},
@@ -1497,4 +1576,496 @@ void pristine_stop(void) {
     waitpid(pr_pid, 0, 0);
     pr_pid = 0;
   }
+}
+
+// ---------------------------------------------------------------- long single-thread call history
+// "No hidden state" includes state that only shows after MANY calls: per-call counters and generation stamps (which wrap at
+// 2^8 or 2^16), warm-up thresholds, statistics. The history below keeps two argument sets of one entry point: A (dimension
+// of `big`) and B (the dimension of `small`, or other arguments on `big` when small == big or the entry skips that
+// dimension). It runs A, B x 255, A, B x 65535, A: the A calls are exactly 256 and 65536 calls of this entry point apart
+// with nothing but B calls in between - and B touches less memory than A (or other positions), so whatever an A call left
+// behind is still there when the counter comes round. Every A must return the bits of the first A, every B the bits of the
+// first B, and the shared objects must not have changed at the end (a threshold crossed after N calls included).
+int ops_history_check(const opdef_t* o, const env_t* big, const env_t* small, uint64_t seedA, uint64_t seedB, char* msg, size_t msglen, uint64_t* calls) {
+  uint64_t bb = 0;
+  const uint64_t hb0 = env_hash(big, &bb), hs0 = small != big ? env_hash(small, &bb) : 0;
+  opres_t a0, a, b;
+  const int saved_rep = op_exec_repeat;
+  op_exec_repeat = 0;
+  op_exec(o, big, seedA, 1, 1, 0, &a0);
+  if (a0.skipped) {
+    op_exec_repeat = saved_rep;
+    return -1;
+  }
+  (*calls)++;
+  int bad = 0;
+  static const int GAP[2] = {256, 65536};
+  for (int g = 0; g < 2 && !bad; g++) {
+    const env_t* be = small;
+    op_exec_repeat = GAP[g] - 2;  // 1 + (GAP-2) = GAP-1 calls of B between two A calls
+    op_exec(o, be, seedB, 2, 3, 0, &b);
+    if (b.skipped && small != big) {
+      be = big;
+      op_exec(o, be, seedB, 2, 3, 0, &b);
+    }
+    op_exec_repeat = 0;
+    if (b.skipped) {
+      op_exec_repeat = saved_rep;
+      return -1;
+    }
+    *calls += (uint64_t)GAP[g] - 1;
+    if (b.rerun_differs) {
+      bad = 1;
+      snprintf(msg, msglen, "%s [N=%" PRIu64 " shape=%s]: %s", o->name, be->N, b.shape, b.msg);
+      break;
+    }
+    op_exec(o, big, seedA, (g + 2) & 3, 5 + (unsigned)g, 0, &a);
+    (*calls)++;
+    if (a.out_hash != a0.out_hash) {
+      bad = 1;
+      snprintf(msg, msglen, "%s [N=%" PRIu64 " shape=%s]: the call returns other bits than the equal-argument call made exactly %d calls of this entry point earlier (only calls with %s in between)", o->name, big->N,
+               a0.shape, GAP[g], be == big ? "other arguments" : "a smaller dimension");
+    }
+  }
+  op_exec_repeat = saved_rep;
+  if (!bad) {
+    if (env_hash(big, &bb) != hb0 || (small != big && env_hash(small, &bb) != hs0)) {
+      bad = 1;
+      snprintf(msg, msglen, "%s [N=%" PRIu64 "]: the shared module / tables changed during a history of %" PRIu64 " calls of this entry point", o->name, big->N, *calls);
+    }
+  }
+  return bad;
+}
+void ops_history_case(const char* key, const char* opname, uint64_t Nbig, uint64_t Nsmall, int cfg, unsigned rep, const char* counter) {
+  char k[200];
+  snprintf(k, sizeof k, "%s|%s,history of 65794 calls%s%s", opname, Nsmall == Nbig ? "other arguments in between" : "smaller dimension in between", cfg == DISP_NATIVE ? "" : ",", cfg == DISP_NATIVE ? "" : disp_name[cfg]);
+  (void)key;
+  if (!case_begin(k, "N=%" PRIu64 " small=%" PRIu64 " rep=%u", Nbig, Nsmall, rep)) return;
+  const opdef_t* o = op_lookup(opname);
+  if (!o) harness_fail("ops_history_case: unknown entry %s", opname);
+  const int sa = g_case_aligned, sp = g_case_place;
+  g_case_aligned = 0;  // (65794 calls: ordinary allocations)
+  g_case_place = 0;
+  env_t* big = env_create(Nbig, cfg);
+  env_t* small = Nsmall == Nbig ? big : env_create(Nsmall, cfg);
+  char msg[400] = "";
+  uint64_t calls = 0;
+  rng_t* r = crng();
+  const uint64_t seedA = rng_u64(r), seedB = rng_u64(r);
+  int bad = ops_history_check(o, big, small, seedA, seedB, msg, sizeof msg, &calls);
+  if (bad > 0) viol("history", "%s", msg);
+  if (small != big) env_destroy(small);
+  env_destroy(big);
+  g_case_aligned = sa;
+  g_case_place = sp;
+  cnt(counter, calls);
+  if (bad >= 0) cnt("long_histories", 1);
+  sample("A, B x255, A, B x65535, A: %" PRIu64 " calls, equal arguments gave equal bits, shared objects unchanged", calls);
+  case_end(bad >= 0);
+}
+
+// ---------------------------------------------------------------- steady concurrent jobs
+// Every job is one entry point with CONSTANT arguments (a Galois loop, a key-switch with one key, ...): first each job runs
+// alone solo_iters times - in the main thread, or (ephemeral) in a thread of its own that exits afterwards, which is also
+// the documented warm-up of the *_simple functions - then all jobs run at once, conc_iters times each, in fresh threads.
+// Every call of a job must return the bits of its first call. Constant arguments are what a "hot parameter" cache or a
+// last-arguments memo keys on; different entry points side by side are what a table shared between two functions sees.
+typedef struct {
+  const opdef_t* o;
+  const env_t* e;
+  uint64_t seed, want, wrong, done;
+  int iters, tight, have, skipped;
+  pthread_barrier_t* bar;
+} sjob_t;
+static void* sjob_worker(void* arg) {
+  sjob_t* j = arg;
+  if (j->bar) pthread_barrier_wait(j->bar);
+  op_exec_repeat = j->tight;
+  for (int i = 0; i < j->iters; i++) {
+    opres_t r;
+    op_exec(j->o, j->e, j->seed, i & 3, (unsigned)i, 0, &r);
+    if (r.skipped) {
+      j->skipped = 1;
+      break;
+    }
+    j->done += 1 + (uint64_t)j->tight;
+    if (!j->have) {
+      j->want = r.out_hash;
+      j->have = 1;
+    }
+    if (r.out_hash != j->want || r.rerun_differs) j->wrong++;
+  }
+  op_exec_repeat = 0;
+  return 0;
+}
+uint64_t ops_steady_check(const char* const* names, int nj, const env_t* env, int solo_iters, int conc_iters, int tight, uint64_t seed, int ephemeral, char* msg, size_t msglen, uint64_t* calls) {
+  sjob_t j[16];
+  pthread_t tid[16];
+  if (nj > 16) nj = 16;
+  uint64_t bad = 0;
+  for (int t = 0; t < nj; t++) {
+    memset(&j[t], 0, sizeof j[t]);
+    j[t].o = op_lookup(names[t]);
+    if (!j[t].o) harness_fail("ops_steady_check: unknown entry %s", names[t]);
+    j[t].e = env;
+    j[t].seed = mix64(seed + 7919 * (uint64_t)t);
+    j[t].iters = solo_iters;
+    j[t].tight = 0;
+    if (ephemeral) {
+      pthread_create(&tid[t], 0, sjob_worker, &j[t]);
+      pthread_join(tid[t], 0);
+    } else
+      sjob_worker(&j[t]);
+    if (j[t].wrong && !bad++) snprintf(msg, msglen, "%s: %" PRIu64 " of %d consecutive calls with constant arguments, alone, differ from the first (N=%" PRIu64 ")", names[t], j[t].wrong, solo_iters, env->N);
+    *calls += j[t].done;
+    j[t].wrong = 0;
+    j[t].done = 0;
+  }
+  pthread_barrier_t bar;
+  int nrun = 0;
+  for (int t = 0; t < nj; t++) nrun += !j[t].skipped;
+  if (nrun < 2) return bad;
+  pthread_barrier_init(&bar, 0, (unsigned)nrun);
+  for (int t = 0; t < nj; t++) {
+    if (j[t].skipped) continue;
+    j[t].iters = conc_iters;
+    j[t].tight = tight;
+    j[t].bar = &bar;
+    pthread_create(&tid[t], 0, sjob_worker, &j[t]);
+  }
+  for (int t = 0; t < nj; t++) {
+    if (j[t].skipped) continue;
+    pthread_join(tid[t], 0);
+    *calls += j[t].done;
+    if (j[t].wrong && !bad++)
+      snprintf(msg, msglen, "%s: %" PRIu64 " calls with constant arguments return other bits than alone while %d other job(s) (%s%s%s) run their own constant calls (N=%" PRIu64 ")", names[t], j[t].wrong, nrun - 1,
+               names[(t + 1) % nj], nj > 2 ? ", " : "", nj > 2 ? names[(t + 2) % nj] : "", env->N);
+  }
+  pthread_barrier_destroy(&bar);
+  return bad;
+}
+void ops_steady_case(const char* key, const char* const* names, int nj, uint64_t N, int cfg, int solo_iters, int conc_iters, int tight, int ephemeral, unsigned rep, const char* counter) {
+  char k[240];
+  snprintf(k, sizeof k, "%s|%d threads,constant arguments per thread%s%s%s", key, nj, ephemeral ? ",first calls made by a thread that exits" : "", cfg == DISP_NATIVE ? "" : ",", cfg == DISP_NATIVE ? "" : disp_name[cfg]);
+  if (!case_begin(k, "N=%" PRIu64 " rep=%u", N, rep)) return;
+  env_t* e = env_create(N, cfg);
+  char msg[400] = "";
+  uint64_t calls = 0;
+  uint64_t bad = ops_steady_check(names, nj, e, solo_iters, conc_iters, tight, G.seed * 6151 + rep * 13 + N, ephemeral, msg, sizeof msg, &calls);
+  if (bad) viol("differential", "%s (%s dispatch)", msg, disp_name[cfg]);
+  env_destroy(e);
+  cnt(counter, calls);
+  sample("%d jobs with constant arguments: %d calls alone then %d at once each, %" PRIu64 " calls identical to the first of their job", nj, solo_iters, conc_iters, calls);
+  case_end(calls > 0);
+}
+
+// ---------------------------------------------------------------- object lifecycle fuzz
+// Modules and tables are created, used and destroyed in random order, several of every (kind, dimension) alive at once:
+// an object must compute what the first object of its kind and dimension computed no matter which other objects were
+// created or destroyed around it (shared or recycled internals, reference counts, "last released" slots), and it must be
+// what was asked for (module type and dimension fields). ASan watches the frees. `mass`: more than 256 (thorough: 65536)
+// objects of one cheap kind alive at once, then a random number of them destroyed, then the survivors used.
+enum { LK_MOD_FFT64, LK_MOD_NTT120, LK_REIM_FFT, LK_REIM_IFFT, LK_CPLX_FFT, LK_CPLX_IFFT, LK_NTT, LK_INTT, LK_BBC, LK_BAA, LK_BBB, LK_REIM_MUL, LK_NKINDS };
+static const char* const LK_NAME[LK_NKINDS] = {"MODULE(FFT64)", "MODULE(NTT120)", "REIM_FFT_PRECOMP", "REIM_IFFT_PRECOMP", "CPLX_FFT_PRECOMP", "CPLX_IFFT_PRECOMP", "q120_ntt_precomp(forward)", "q120_ntt_precomp(inverse)",
+                                               "q120_mat1col_product_bbc_precomp", "q120_mat1col_product_baa_precomp", "q120_mat1col_product_bbb_precomp", "REIM_FFTVEC_MUL_PRECOMP"};
+typedef struct {
+  int kind;
+  uint64_t N;
+  void* obj;
+} lobj_t;
+static void* life_new(int kind, uint64_t N) {
+  const uint32_t m = (uint32_t)(N / 2);
+  switch (kind) {
+    case LK_MOD_FFT64: return new_module_info(N, FFT64);
+    case LK_MOD_NTT120: return new_module_info(N, NTT120);
+    case LK_REIM_FFT: return new_reim_fft_precomp(m, 0);
+    case LK_REIM_IFFT: return new_reim_ifft_precomp(m, 0);
+    case LK_CPLX_FFT: return new_cplx_fft_precomp(m, 0);
+    case LK_CPLX_IFFT: return new_cplx_ifft_precomp(m, 0);
+    case LK_NTT: return q120_new_ntt_bb_precomp(N);
+    case LK_INTT: return q120_new_intt_bb_precomp(N);
+    case LK_BBC: return q120_new_vec_mat1col_product_bbc_precomp();
+    case LK_BAA: return q120_new_vec_mat1col_product_baa_precomp();
+    case LK_BBB: return q120_new_vec_mat1col_product_bbb_precomp();
+    default: return new_reim_fftvec_mul_precomp(m);
+  }
+}
+static void life_del(int kind, void* o) {
+  switch (kind) {
+    case LK_MOD_FFT64:
+    case LK_MOD_NTT120: delete_module_info(o); break;
+    case LK_NTT: q120_del_ntt_bb_precomp(o); break;
+    case LK_INTT: q120_del_intt_bb_precomp(o); break;
+    case LK_BBC: q120_delete_vec_mat1col_product_bbc_precomp(o); break;
+    case LK_BAA: q120_delete_vec_mat1col_product_baa_precomp(o); break;
+    case LK_BBB: q120_delete_vec_mat1col_product_bbb_precomp(o); break;
+    default: free(o);
+  }
+}
+// deterministic use of an object; returns a hash of everything it computed; *why set when an exact identity fails
+static uint64_t life_use(int kind, uint64_t N, void* obj, const char** why) {
+  uint64_t h = 0x77;
+  rng_t r;
+  rng_seed(&r, 1234 + (uint64_t)kind, N);
+  switch (kind) {
+    case LK_MOD_FFT64:
+    case LK_MOD_NTT120: {
+      const MODULE* M = obj;
+      const int ntt = kind == LK_MOD_NTT120;
+      if (M->module_type != (ntt ? NTT120 : FFT64)) *why = "the module handed out is of the other module type";
+      else if (M->nn != N) *why = "the module handed out has another ring dimension";
+      if (*why) return 0;
+      int64_t* a = malloc(N * 8);
+      int64_t* back = malloc(N * 8);
+      for (uint64_t i = 0; i < N; i++) a[i] = rng_sbits(&r, ntt ? 63 : 40);
+      if (ntt) a[0] = INT64_MIN;
+      const uint64_t db = ntt ? N * 32 : bytes_of_vec_znx_dft(M, 1), bgb = ntt ? N * 16 : bytes_of_vec_znx_big(M, 1);  // (the byte-size getters are FFT64-only)
+      void* d = aligned_alloc(64, (db + 63) / 64 * 64);
+      void* bg = aligned_alloc(64, (bgb + 63) / 64 * 64);
+      uint8_t* tmp = malloc(vec_znx_idft_tmp_bytes(M) + 64);
+      vec_znx_dft(M, d, 1, a, 1, N);
+      h = hash_bytes(d, db, h);
+      vec_znx_idft(M, bg, 1, d, 1, tmp);
+      if (ntt) {
+        const __int128* w = bg;
+        for (uint64_t i = 0; i < N; i++)
+          if (w[i] != (__int128)a[i]) *why = "vec_znx_idft(vec_znx_dft(a)) is not a on this module";
+      } else {
+        const int64_t* w = bg;
+        for (uint64_t i = 0; i < N; i++)
+          if (w[i] != a[i]) *why = "vec_znx_idft(vec_znx_dft(a)) is not a on this module";
+      }
+      (void)back;
+      free(a); free(back); free(d); free(bg); free(tmp);
+      return h;
+    }
+    case LK_REIM_FFT:
+    case LK_REIM_IFFT:
+    case LK_CPLX_FFT:
+    case LK_CPLX_IFFT: {
+      const uint64_t m = N / 2;
+      double* x = aligned_alloc(64, (2 * m * 8 + 63) / 64 * 64);
+      for (uint64_t i = 0; i < 2 * m; i++) x[i] = rng_unit(&r) * 2 - 1;
+      if (kind == LK_REIM_FFT) reim_fft(obj, x);
+      else if (kind == LK_REIM_IFFT) reim_ifft(obj, x);
+      else if (kind == LK_CPLX_FFT) cplx_fft(obj, x);
+      else cplx_ifft(obj, x);
+      h = hash_bytes(x, 2 * m * 8, h);
+      free(x);
+      return h;
+    }
+    case LK_NTT:
+    case LK_INTT: {
+      uint64_t* x = aligned_alloc(64, N * 32 + 64);
+      for (uint64_t i = 0; i < 4 * N; i++) x[i] = rng_u64(&r);
+      if (kind == LK_NTT) q120_ntt_bb_avx2(obj, (q120b*)x);
+      else q120_intt_bb_avx2(obj, (q120b*)x);
+      // residues, not lazy representatives
+      static const uint64_t Q[4] = {Q1, Q2, Q3, Q4};
+      for (uint64_t i = 0; i < 4 * N; i++) x[i] %= Q[i & 3];
+      h = hash_bytes(x, N * 32, h);
+      free(x);
+      return h;
+    }
+    case LK_BBC:
+    case LK_BAA:
+    case LK_BBB: {
+      enum { ELL = 37 };
+      uint64_t* x = aligned_alloc(64, (ELL * 32 + 63) / 64 * 64);
+      uint64_t* y = aligned_alloc(64, (ELL * 32 + 63) / 64 * 64);
+      uint64_t res[4];
+      for (int i = 0; i < 4 * ELL; i++) {
+        x[i] = kind == LK_BAA ? (rng_u64(&r) & 0xFFFFFFFFu) : rng_u64(&r);
+        y[i] = kind == LK_BAA ? (rng_u64(&r) & 0xFFFFFFFFu) : rng_u64(&r);
+      }
+      if (kind == LK_BBC) {
+        // c layout: (v mod q, v*2^32 mod q) as two 32-bit words per prime
+        static const uint64_t Q[4] = {Q1, Q2, Q3, Q4};
+        uint32_t* yc = (uint32_t*)y;
+        for (int i = 0; i < ELL; i++)
+          for (int k = 0; k < 4; k++) {
+            const uint64_t v = rng_u64(&r) % Q[k];
+            yc[8 * i + 2 * k] = (uint32_t)v;
+            yc[8 * i + 2 * k + 1] = (uint32_t)((v << 32) % Q[k]);
+          }
+        q120_vec_mat1col_product_bbc_ref(obj, ELL, (q120b*)res, (q120b*)x, (q120c*)y);
+      } else if (kind == LK_BAA)
+        q120_vec_mat1col_product_baa_ref(obj, ELL, (q120b*)res, (q120a*)x, (q120a*)y);
+      else
+        q120_vec_mat1col_product_bbb_ref(obj, ELL, (q120b*)res, (q120b*)x, (q120b*)y);
+      static const uint64_t Q[4] = {Q1, Q2, Q3, Q4};
+      for (int k = 0; k < 4; k++) res[k] %= Q[k];
+      h = hash_bytes(res, 32, h);
+      free(x); free(y);
+      return h;
+    }
+    default: {
+      const uint64_t m = N / 2;
+      double* x = aligned_alloc(64, (6 * m * 8 + 63) / 64 * 64);
+      for (uint64_t i = 0; i < 6 * m; i++) x[i] = rng_unit(&r) * 2 - 1;
+      reim_fftvec_mul(obj, x, x + 2 * m, x + 4 * m);
+      h = hash_bytes(x, 2 * m * 8, h);
+      free(x);
+      return h;
+    }
+  }
+}
+void ops_lifecycle_case(const char* key, unsigned kindmask, int cfg, int steps, int mass, unsigned rep, const char* counter) {
+  char k[200];
+  snprintf(k, sizeof k, "%s|object lifecycle: random create/use/destroy%s%s%s", key, mass ? ",many alive at once" : "", cfg == DISP_NATIVE ? "" : ",", cfg == DISP_NATIVE ? "" : disp_name[cfg]);
+  if (!case_begin(k, "kinds=%#x steps=%d mass=%d rep=%u", kindmask, steps, mass, rep)) return;
+  rng_t* r = crng();
+  const int saved = g_dispatch_native;
+  set_dispatch(cfg);
+  if (cfg != DISP_NATIVE && cfg != DISP_AVX2_ONLY) kindmask &= ~((1u << LK_MOD_NTT120) | (1u << LK_NTT) | (1u << LK_INTT));  // behind the avx2 gate
+  int kinds[LK_NKINDS], nk = 0;
+  for (int i = 0; i < LK_NKINDS; i++)
+    if (kindmask & (1u << i)) kinds[nk++] = i;
+  if (!nk) harness_fail("ops_lifecycle_case: no kind");
+  static const uint64_t NS[] = {4, 8, 16, 64};
+  // reference hash per (kind, N, dispatch): the first object of this case... of the process (kept across cases)
+  static uint64_t ref[N_DISP][LK_NKINDS][4];
+  uint64_t uses = 0, created = 0, destroyed = 0, maxlive = 0;
+  const int cap = mass ? mass : 12;
+  lobj_t* pool = calloc((size_t)cap + 1, sizeof *pool);
+  int live = 0;
+  int nviol = 0;
+#define LIFE_USE(OBJ)                                                                                                                                  \
+  do {                                                                                                                                                 \
+    const lobj_t* ob_ = (OBJ);                                                                                                                         \
+    const char* why_ = 0;                                                                                                                              \
+    int ni_ = 0;                                                                                                                                       \
+    while (NS[ni_] != ob_->N) ni_++;                                                                                                                   \
+    const uint64_t hh_ = life_use(ob_->kind, ob_->N, ob_->obj, &why_);                                                                                 \
+    uses++;                                                                                                                                            \
+    if (why_ && nviol++ < 3) viol("oracle", "%s of dimension %" PRIu64 " (object number %" PRIu64 " created, %" PRIu64 " destroyed so far, %d alive): %s", LK_NAME[ob_->kind], ob_->N, created, destroyed, live, why_); \
+    if (!why_) {                                                                                                                                       \
+      uint64_t* rf_ = &ref[cfg & 3][ob_->kind][ni_];                                                                                                   \
+      if (!*rf_) *rf_ = hh_;                                                                                                                           \
+      else if (*rf_ != hh_ && nviol++ < 3)                                                                                                             \
+        viol("differential", "%s of dimension %" PRIu64 " computes other bits than the first such object of the process (%" PRIu64 " created, %" PRIu64 " destroyed so far, %d alive)", LK_NAME[ob_->kind], ob_->N, created, destroyed, live); \
+    }                                                                                                                                                  \
+  } while (0)
+  if (mass) {
+    // one cheap kind, `mass` objects alive at once
+    const int kind = kinds[rng_u64(r) % (uint64_t)nk];
+    const uint64_t N = NS[rng_u64(r) % 2];
+    const int K = mass - (int)(rng_u64(r) % 40);
+    for (int i = 0; i < K; i++) {
+      pool[live++] = (lobj_t){kind, N, life_new(kind, N)};
+      created++;
+    }
+    maxlive = (uint64_t)live;
+    LIFE_USE(&pool[0]);
+    LIFE_USE(&pool[live - 1]);
+    const int D = 1 + (int)(rng_u64(r) % (uint64_t)(K - 1));
+    for (int i = 0; i < D; i++) {  // destroy D of them, chosen at random
+      const int v = (int)(rng_u64(r) % (uint64_t)live);
+      life_del(pool[v].kind, pool[v].obj);
+      pool[v] = pool[--live];
+      destroyed++;
+    }
+    for (int i = 0; i < live && i < 8; i++) LIFE_USE(&pool[(size_t)(rng_u64(r) % (uint64_t)live)]);
+    LIFE_USE(&pool[0]);
+    cnt("lifecycle_mass_objects_alive", (uint64_t)K);
+  } else {
+    for (int st = 0; st < steps; st++) {
+      const unsigned a = (unsigned)(rng_u64(r) % 8);
+      if ((a < 3 && live < cap) || live == 0) {
+        const int kind = kinds[rng_u64(r) % (uint64_t)nk];
+        // few dimensions: several objects of the same (kind, dimension) are alive together, next to others
+        const uint64_t N = NS[rng_u64(r) % (rng_u64(r) & 1 ? 2 : ARRAY_LEN(NS))];
+        pool[live++] = (lobj_t){kind, N, life_new(kind, N)};
+        created++;
+        if ((uint64_t)live > maxlive) maxlive = (uint64_t)live;
+        if (rng_u64(r) & 1) LIFE_USE(&pool[live - 1]);
+      } else if (a < 5) {
+        const int v = (int)(rng_u64(r) % (uint64_t)live);
+        life_del(pool[v].kind, pool[v].obj);
+        pool[v] = pool[--live];
+        destroyed++;
+      } else
+        LIFE_USE(&pool[(size_t)(rng_u64(r) % (uint64_t)live)]);
+    }
+    for (int i = 0; i < live; i++) LIFE_USE(&pool[i]);
+  }
+  while (live) {
+    live--;
+    life_del(pool[live].kind, pool[live].obj);
+    destroyed++;
+  }
+#undef LIFE_USE
+  free(pool);
+  set_dispatch(saved);
+  cnt(counter, uses);
+  cnt("lifecycle_objects_created", created);
+  gauge_max("lifecycle_max_objects_alive", (double)maxlive);
+  sample("%" PRIu64 " objects created and destroyed in random order (at most %" PRIu64 " alive), %" PRIu64 " uses equal to the first object of their kind and dimension", created, maxlive, uses);
+  case_end(uses > 0);
+}
+
+// ---------------------------------------------------------------- in-place ring maps after a long history
+// The in-place rotation / automorphism walk cycles of positions; bookkeeping that survives between calls (visit marks,
+// generation stamps) only shows when a call comes exactly 2^8 or 2^16 calls after the one that left the marks, with
+// nothing but calls on a smaller ring (or with another exponent) in between. which: 0 vec_znx_rotate, 1 vec_znx_automorphism,
+// 2 vec_znx_big_rotate, 3 vec_znx_big_automorphism (all in place, one limb). Each in-place result is compared with the
+// out-of-place result of the same call, and that one with the definition. Returns the number of wrong results.
+static void ring_def(int automorphism, uint64_t N, int64_t p, int64_t* res, const int64_t* a) {
+  const uint64_t m2 = 2 * N - 1;
+  for (uint64_t i = 0; i < N; i++) {
+    const uint64_t j = automorphism ? (uint64_t)((uint64_t)i * (uint64_t)p) & m2 : ((uint64_t)i + (uint64_t)p) & m2;
+    if (j < N) res[j] = a[i];
+    else res[j - N] = -a[i];
+  }
+}
+static int ring_once(int which, const MODULE* M, uint64_t N, int64_t p, uint64_t salt, int check_def) {
+  int64_t* a = malloc(N * 8);
+  int64_t* ip = malloc(N * 8);
+  int64_t* oop = malloc(N * 8);
+  for (uint64_t i = 0; i < N; i++) a[i] = (int64_t)(mix64(salt + i) >> 4) - ((int64_t)1 << 58);
+  memcpy(ip, a, N * 8);
+  switch (which) {
+    case 0: vec_znx_rotate(M, p, ip, 1, N, ip, 1, N); vec_znx_rotate(M, p, oop, 1, N, a, 1, N); break;
+    case 1: vec_znx_automorphism(M, p, ip, 1, N, ip, 1, N); vec_znx_automorphism(M, p, oop, 1, N, a, 1, N); break;
+    case 2: vec_znx_big_rotate(M, p, (VEC_ZNX_BIG*)ip, 1, (VEC_ZNX_BIG*)ip, 1); vec_znx_big_rotate(M, p, (VEC_ZNX_BIG*)oop, 1, (VEC_ZNX_BIG*)a, 1); break;
+    default: vec_znx_big_automorphism(M, p, (VEC_ZNX_BIG*)ip, 1, (VEC_ZNX_BIG*)ip, 1); vec_znx_big_automorphism(M, p, (VEC_ZNX_BIG*)oop, 1, (VEC_ZNX_BIG*)a, 1); break;
+  }
+  int bad = memcmp(ip, oop, N * 8) != 0;
+  if (check_def && !bad) {
+    int64_t* d = malloc(N * 8);
+    ring_def(which & 1, N, p, d, a);
+    bad = memcmp(d, oop, N * 8) != 0;
+    free(d);
+  }
+  free(a); free(ip); free(oop);
+  return bad;
+}
+void ops_ring_history_case(int which, uint64_t N, int64_t pA, uint64_t N2, int64_t pB, int native, unsigned rep, const char* counter) {
+  static const char* nm[] = {"vec_znx_rotate", "vec_znx_automorphism", "vec_znx_big_rotate", "vec_znx_big_automorphism"};
+  char k[200];
+  snprintf(k, sizeof k, "%s(res==a)|history of 65794 calls,%s in between%s", nm[which], N2 == N ? "another exponent" : "a smaller ring", native ? "" : ",generic");
+  if (!case_begin(k, "N=%" PRIu64 " p=%" PRId64 " N2=%" PRIu64 " p2=%" PRId64 " rep=%u", N, pA, N2, pB, rep)) return;
+  const MODULE* MA = get_module(N, FFT64, native);
+  const MODULE* MB = get_module(N2, FFT64, native);
+  uint64_t calls = 0, wrongA = 0, wrongB = 0;
+  int firstbad = -1;
+  static const int GAP[2] = {256, 65536};
+  wrongA += (uint64_t)ring_once(which, MA, N, pA, rep, 1);
+  calls++;
+  for (int g = 0; g < 2; g++) {
+    for (int i = 1; i < GAP[g]; i++) {
+      wrongB += (uint64_t)ring_once(which, MB, N2, pB, (uint64_t)i, i < 4);
+      calls++;
+    }
+    const int b = ring_once(which, MA, N, pA, rep + 1000 * (unsigned)(g + 1), 1);
+    if (b && firstbad < 0) firstbad = GAP[g];
+    wrongA += (uint64_t)b;
+    calls++;
+  }
+  if (wrongA) viol("history", "%s in place (N=%" PRIu64 ", p=%" PRId64 ") differs from the out-of-place call / the definition: first wrong call made exactly %d in-place calls after the previous call on this ring (only %s in between)", nm[which], N, pA, firstbad, N2 == N ? "calls with another exponent" : "calls on a smaller ring");
+  if (wrongB) viol("history", "%s in place (N=%" PRIu64 ", p=%" PRId64 "): %" PRIu64 " of the intermediate calls differ from the out-of-place call", nm[which], N2, pB, wrongB);
+  cnt(counter, 2 * calls);
+  cnt("long_histories", 1);
+  sample("A, B x255, A, B x65535, A (in place and out of place each): %" PRIu64 " calls agree", 2 * calls);
+  case_end(1);
 }
